@@ -51,6 +51,7 @@ import GoMC.Lemmas.SNBTTagSpec
 import GoMC.Lemmas.SNBTWF
 import GoMC.Lemmas.SNBTTokSound
 import GoMC.Lemmas.SNBTSimTop
+import GoMC.Lemmas.SNBTWriteFast
 import GoMC.Lemmas.SNBTSpecTree
 import GoMC.Spec.SNBT
 import GoMC.Gen.SNBT
@@ -239,6 +240,15 @@ bytes) and extension stable for every fuel — C09 reuses this -/
 theorem C04_walker_frag_invariant (fo : FmtOracle) (tag : Byte) :
     Rd.FragInv (unmarshalNBT fo tag) ∧ ∀ fuel, Rd.ExtStable (encode fo fuel tag) :=
   ⟨unmarshalNBT_fragInv fo tag, fun fuel => (walker_extStable fo fuel).1 tag⟩
+
+/-- `C04_driver_walker`: the walker that the DRIVER executes (`Model/SNBTWriteFast.lean`: plain byte string, loops
+without accumulators, so that arrays and lists of thousands of elements are walked in linear time) is the model:
+same result and same bytes left as `unmarshalNBT` on the in-memory source, and the same `RawMessage.String()` -/
+theorem C04_driver_walker (fo : FmtOracle) (tag : Byte) (data : Bytes) :
+    unmarshalNBTB fo tag data =
+      ((unmarshalNBT fo tag (Stream.ofBytes data)).1, (unmarshalNBT fo tag (Stream.ofBytes data)).2.flat) ∧
+    rawStringB fo tag data = rawString fo tag data :=
+  ⟨unmarshalNBTB_eq fo tag data, rawStringB_eq fo tag data⟩
 
 /-! ### the scanner -/
 
